@@ -570,3 +570,245 @@ Proof.
   - split; [vm_compute; reflexivity|]. split; [reflexivity|]. split; [repeat constructor|]. split; [reflexivity|].
     split; [reflexivity|]. vm_compute; reflexivity.
 Qed.
+
+(* ======================================================================================================================
+   ROUND 3 — two-site TDVP / DMRG and the total charge through all four sweep functions.
+   Proofs: Proofs/Hist3{Sweep2,Top,Charge,Example}.v.
+
+   (1) Whole runs of the two-site mirrors (Model/Sweeps.v tdvp_twosite, dmrg_twosite; any number of steps / sweeps, L >= 2 for
+       TDVP as asserted by the code, L >= 1 for DMRG) keep [mps_ok] and every environment block sparse
+       ([C02_tdvp2_run_sparse], [C02_dmrg2_run_sparse]) relative to the per-call contracts [sp2_tr_ok]:
+         KH2 / EIG2    the solver answer on the merged pair is block sparse under (flatten(qd, qd), qD[i], qD[i+2]) if its
+                       arguments are -- a THEOREM for the Krylov solvers whenever the call returns
+                       ([C02_lanczos2_calls_meet_contracts]; merged MPO tensor: [C02_merge_mpo_ok])
+         SPLITL/R      split_mps_tensor returns factors that are block sparse under the returned bond charges -- C12's
+                       conclusion; for the model of C03/C12 it follows from [svd_ans_ok] ([C02_split_contract_for_sweeps])
+         QR            C11's conclusion (final QR of each DMRG sweep), KH / EIG / KB as in round 2.
+       The History steps with twosite = true: [C02_tdvp_step_contract], [C02_dmrg_step_contract]; and the final form of the
+       history theorem [C02_history_inv]: every result function of the state machine is its executable model and the only
+       hypotheses are contracts of the numerical primitives on the calls actually issued + "solver calls return" + the
+       operand conditions [sweep_pre] (operator charge neutral with non-empty bonds).
+   (2) Total charge: [C02_total_charge_kept_tdvp] (both integrators; NO hypothesis on solver / QR / split calls: the sweeps
+       rebind inner bonds only), [C02_total_charge_kept_dmrg] (both functions; the closing QR of a sweep rebinds qD[0], which
+       is kept because the centre tensor has norm one: contracts of C02 and of C10 on the issued calls; every L >= 1).
+   What remains a hypothesis: see [C02_history_inv]; for the DMRG charge theorem the C10 operand conditions (uniform shapes,
+   right-canonical after the preliminary orthonormalisation: C01) and C10's exact-split contract (tol = 0).
+   ====================================================================================================================== *)
+From PT Require Import Proofs.SweepsGauge Proofs.SweepsRun Proofs.Sweeps2Run Proofs.OperationUniform Proofs.SweepsCanon.
+From PT Require Import Proofs.Hist3Sweep2 Proofs.Hist3Top Proofs.Hist3Charge Proofs.Hist3Example.
+
+(* ---- the merged MPO tensor of a two-site local problem (merge_mpo_tensor_pair), in the style of C02_merge_ok ---- *)
+Theorem C02_merge_mpo_ok : forall (R : cring) qd0 qd1 ql qm qr (W0 W1 : osite R), 0 < length qd1 ->
+  osite_okP R qd0 ql qm W0 -> osite_okP R qd1 qm qr W1 ->
+  osite_okP R (Sweeps.qflat qd0 qd1) ql qr (c04_merge_osite W0 W1).
+Proof. exact merge_osite_okP. Qed.
+Print Assumptions C02_merge_mpo_ok.
+
+(* ---- target 1: whole two-site runs ---- *)
+Theorem C02_tdvp2_run_sparse : forall (R : cring) orth split kexp (H : mpo R) (psi : mps R) dt hdt n A qD nrm tr,
+  tdvp_twosite orth split kexp H psi dt hdt n = Some (A, qD, nrm, tr) ->
+  mpo_ok H = true -> o_qd H = m_qd psi -> Forall (fun q => 0 < length q) (o_qD H) ->
+  hd [] (o_qD H) = [0%Z] -> last (o_qD H) [] = [0%Z] ->
+  0 < length (m_qd psi) -> m_qd (fst (orth psi)) = m_qd psi -> mps_ok (fst (orth psi)) = true ->
+  length (hd [] (m_qD (fst (orth psi)))) = 1 -> length (last (m_qD (fst (orth psi))) []) = 1 ->
+  sp2_tr_ok R (no_qr R) split kexp (no_kexp0 R) (no_keig R) (o_A H) (m_qd psi) (o_qD H) dt hdt (rev tr) ->
+  mps_ok (mkmps (m_qd psi) qD A) = true /\ nrm = snd (orth psi) /\ 2 <= length (o_A H).
+Proof. exact tdvp2_mps_ok. Qed.
+Print Assumptions C02_tdvp2_run_sparse.
+
+Theorem C02_dmrg2_run_sparse : forall (R : cring) orth qr split keig (H : mpo R) (psi : mps R) n A qD ens tr,
+  dmrg_twosite orth qr split keig H psi n = Some (A, qD, ens, tr) ->
+  mpo_ok H = true -> o_qd H = m_qd psi -> Forall (fun q => 0 < length q) (o_qD H) ->
+  hd [] (o_qD H) = [0%Z] -> last (o_qD H) [] = [0%Z] ->
+  0 < length (m_qd psi) -> m_qd (fst (orth psi)) = m_qd psi -> mps_ok (fst (orth psi)) = true ->
+  length (hd [] (m_qD (fst (orth psi)))) = 1 -> length (last (m_qD (fst (orth psi))) []) = 1 ->
+  sp2_tr_ok R qr split (no_kexp R) (no_kexp0 R) keig (o_A H) (m_qd psi) (o_qD H) (k0 R) (k0 R) (rev tr) ->
+  mps_ok (mkmps (m_qd psi) qD A) = true.
+Proof. exact dmrg2_mps_ok. Qed.
+Print Assumptions C02_dmrg2_run_sparse.
+
+(* the sweep invariant behind both: after every loop body all site tensors are block sparse under the CURRENT qD and the
+   environment blocks BL[0..i], BR[i..L-1] under (psi.qD[j], H.qD[j], psi.qD[j]); one time step / one sweep *)
+Theorem C02_twosite_sweep_invariant : forall (R : cring) qr split kexp kexp0 keig (Hs : list (osite R)) qd qWs (dt hdt : R),
+  0 < length qd -> chainP (osite_okP R qd) qWs Hs -> (forall j, j <= length Hs -> 0 < length (nth j qWs [])) -> nth 0 qWs [] = [0%Z] ->
+  (forall st, 2 <= length Hs -> ZQ R Hs qd qWs st 0 ->
+     sp2_tr_ok R qr split kexp kexp0 keig Hs qd qWs dt hdt (s_tr (tdvp2_step split kexp Hs qd dt hdt (length Hs) st)) ->
+     ZQ R Hs qd qWs (tdvp2_step split kexp Hs qd dt hdt (length Hs) st) 0) /\
+  (forall st, 1 <= length Hs -> ZQ R Hs qd qWs st 0 -> gBL st 0 = env_one ->
+     sp2_tr_ok R qr split kexp kexp0 keig Hs qd qWs dt hdt (s_tr (fst (dmrg2_sweep qr split keig Hs qd (length Hs) st))) ->
+     ZQ R Hs qd qWs (fst (dmrg2_sweep qr split keig Hs qd (length Hs) st)) 0 /\
+     gBL (fst (dmrg2_sweep qr split keig Hs qd (length Hs) st)) 0 = env_one).
+Proof.
+  intros R qr split kexp kexp0 keig Hs qd qWs dt hdt Hd HWs HWpos HW0. split.
+  - exact (tdvp2_step_sp R qr split kexp kexp0 keig Hs qd qWs dt hdt Hd HWs HWpos).
+  - exact (dmrg2_sweep_sp R qr split kexp kexp0 keig Hs qd qWs dt hdt Hd HWs HWpos HW0).
+Qed.
+Print Assumptions C02_twosite_sweep_invariant.
+
+(* the per-call contracts are theorems for the Krylov-based solvers on the merged pair: what remains is "the solver call
+   returns", C12's conclusion for the split calls and C11's for the QR calls *)
+Theorem C02_lanczos2_calls_meet_contracts : forall (F : ofield) dnorm small deigh dexp dexpm numiter qr split
+    (Hs : list (osite (Cx F))) qd qWs (dt hdt : Cx F),
+  0 < length qd -> chainP (osite_okP (Cx F) qd) qWs Hs -> (forall j, j <= length Hs -> 0 < length (nth j qWs [])) ->
+  forall tr, lz2_tr_ok F dnorm small deigh dexp dexpm numiter qr split Hs dt hdt tr ->
+  sp2_tr_ok (Cx F) qr split (kexp_lanczos F dnorm small deigh dexp dexpm numiter) (kexp0_lanczos F dnorm small deigh dexp dexpm numiter)
+            (keig_lanczos F dnorm small deigh numiter) Hs qd qWs dt hdt tr.
+Proof. exact lz2_tr_sp. Qed.
+Print Assumptions C02_lanczos2_calls_meet_contracts.
+
+(* split_mps_tensor = the model of C03 / C12 around split_matrix_svd: C12's conclusion [svd_ans_ok] for the one SVD call
+   (a theorem for non-zero valid input: C02_split_contract_from_C12) gives the split contract of the sweeps *)
+Theorem C02_split_contract_for_sweeps : forall (R : cring) svd ksqrt (Am : site R) q0 q1 q2 q3 distr, 0 < length q0 * length q1 ->
+  (site_okP R (Sweeps.qflat q0 q1) q2 q3 Am ->
+   svd_ans_ok R (split_matrix (length q0) (length q1) Am) (MPSOps.qflat q0 q2) (MPSOps.qflat (map Z.opp q1) q3)
+     (svd (split_matrix (length q0) (length q1) Am) (MPSOps.qflat q0 q2) (MPSOps.qflat (map Z.opp q1) q3))) ->
+  site_okP R (Sweeps.qflat q0 q1) q2 q3 Am -> split_sp_ok R q0 q1 q2 q3 (split_mps_tensor svd ksqrt Am q0 q1 q2 q3 distr).
+Proof. exact split_sp_of_C12. Qed.
+Print Assumptions C02_split_contract_for_sweeps.
+
+(* the Tdvp / Dmrg steps with twosite = true of the state machine, result function = the sweep model *)
+Theorem C02_tdvp_step_contract : forall (R : cring) orth split kexp (tdvp_par : nat -> R * R * nat)
+    (O : oracles R) (s : state R) (a i tag : nat),
+  or_tdvp O true = tdvp2_result R orth split kexp tdvp_par ->
+  (forall x p, nth_error (operators s) a = Some x -> nth_error (states s) i = Some p ->
+     sweep_pre R orth x p /\ tdvp2_calls_ok R orth split kexp tdvp_par tag x p) ->
+  oracle_ok_at R O s (Tdvp true a i tag).
+Proof. exact tdvp2_step_contract. Qed.
+Print Assumptions C02_tdvp_step_contract.
+
+Theorem C02_dmrg_step_contract : forall (R : cring) orth qr split keig (dmrg_par : nat -> nat)
+    (O : oracles R) (s : state R) (a i tag : nat),
+  or_dmrg O true = dmrg2_result R orth qr split keig dmrg_par ->
+  (forall x p, nth_error (operators s) a = Some x -> nth_error (states s) i = Some p ->
+     sweep_pre R orth x p /\ dmrg2_calls_ok R orth qr split keig dmrg_par tag x p) ->
+  oracle_ok_at R O s (Dmrg true a i tag).
+Proof. exact dmrg2_step_contract. Qed.
+Print Assumptions C02_dmrg_step_contract.
+
+(* ---- the history theorem, final form.  [model_oracles]: orthonormalize (MPS, MPO), compress and the four sweep functions
+        are their executable models.  [contracts_ok]: along the history, for each operation,
+          ring operations           nothing
+          from_vector               the tensors returned by the TT-SVD loop chain up (shapes)
+          merge + split             C12's conclusion for the one split_matrix_svd call ([C02_split_contract_from_C12])
+          orthonormalize (MPS/MPO)  C01's operand conditions, LAPACK's QR contract on the calls issued
+          compress                  the same + dsvd_ok / pick_ok / abs on the calls issued, 0 <= tol < 1
+          TDVP / DMRG (1- and 2-site) [sweep_pre] (operator charge neutral with non-empty bonds; the facts of C01 about the
+                                    preliminary orthonormalisation) and the per-call contracts of the emitted trace, which for
+                                    the Krylov solvers reduce to "the call returns" ([C02_lanczos_calls_meet_contracts],
+                                    [C02_lanczos2_calls_meet_contracts]), for bond_ops.qr to C11 and for split to C12.
+        No hypothesis of the form "the result is block sparse" is left. ---- *)
+Theorem C02_history_inv : forall (F : ofield) dqr dsvd pick cabs (tolf : nat -> F) orth qr split kexp kexp0 keig
+    (tdvp_par : nat -> Cx F * Cx F * nat) (dmrg_par : nat -> nat) (O : oracles (Cx F)),
+  model_oracles F dqr dsvd pick cabs tolf orth qr split kexp kexp0 keig tdvp_par dmrg_par O ->
+  forall (ops : list (op (Cx F))) (s : state (Cx F)),
+    Inv (Cx F) s -> contracts_ok F dqr dsvd pick cabs tolf orth qr split kexp kexp0 keig tdvp_par dmrg_par O ops s ->
+    Inv (Cx F) (run O ops s).
+Proof. exact history_inv_contracts. Qed.
+Print Assumptions C02_history_inv.
+
+(* ---- target 2: total charge through the sweeps ---- *)
+(* both TDVP integrators: for a state with a non-zero amplitude the returned qD[0] and qD[L] are the input's, whatever the
+   local solvers, QR and split calls return (hypotheses: those of C02_total_charge_kept_orth for the preliminary
+   psi.orthonormalize(mode='right')) *)
+Theorem C02_total_charge_kept_tdvp : forall (F : ofield) (dqr : mx (Cx F) -> mx (Cx F) * mx (Cx F)) (psi : mps (Cx F)) (w : list nat),
+  mps_ok psi = true -> orth_pre F psi -> Forall (qr_call_ok F dqr) (mps_orth_calls dqr false psi) ->
+  length w = length (m_A psi) -> Forall (fun s => s < length (m_qd psi)) w -> amp (m_A psi) w <> k0 (Cx F) ->
+  (forall qr kexp kexp0 H dt hdt n A qD nrm tr,
+     tdvp_singlesite (orth_right_model F dqr) qr kexp kexp0 H psi dt hdt n = Some (A, qD, nrm, tr) ->
+     hd [] qD = hd [] (m_qD psi) /\ last qD [] = last (m_qD psi) []) /\
+  (forall split kexp H dt hdt n A qD nrm tr,
+     tdvp_twosite (orth_right_model F dqr) split kexp H psi dt hdt n = Some (A, qD, nrm, tr) ->
+     hd [] qD = hd [] (m_qD psi) /\ last qD [] = last (m_qD psi) []).
+Proof. exact tdvp_total_charge_kept. Qed.
+Print Assumptions C02_total_charge_kept_tdvp.
+
+(* the bookkeeping fact behind it, for arbitrary oracles: the sweeps return the boundary lists of the orthonormalised state *)
+Theorem C02_tdvp_boundary : forall (R : cring) orth (H : mpo R) psi dt hdt n A qD nrm tr,
+  mps_ok (fst (orth psi)) = true ->
+  (forall qr kexp kexp0, tdvp_singlesite orth qr kexp kexp0 H psi dt hdt n = Some (A, qD, nrm, tr) ->
+     hd [] qD = hd [] (m_qD (fst (orth psi))) /\ last qD [] = last (m_qD (fst (orth psi))) []) /\
+  (forall split kexp, tdvp_twosite orth split kexp H psi dt hdt n = Some (A, qD, nrm, tr) ->
+     hd [] qD = hd [] (m_qD (fst (orth psi))) /\ last qD [] = last (m_qD (fst (orth psi))) []).
+Proof.
+  intros R orth H psi dt hdt n A qD nrm tr Hok. split.
+  - intros qr kexp kexp0 Hrun. exact (tdvp1_boundary R orth qr kexp kexp0 H psi dt hdt n A qD nrm tr Hrun Hok).
+  - intros split kexp Hrun. exact (tdvp2_boundary R orth split kexp H psi dt hdt n A qD nrm tr Hrun Hok).
+Qed.
+Print Assumptions C02_tdvp_boundary.
+
+(* DMRG's closing QR of site 0 keeps psi.qD[0]: the centre tensor has norm one (invariant Z of C10 with N = 1), so R of
+   A[0]^T = Q R is a non-zero 1 x 1 matrix that is block sparse under (qbond, -qD[0]) *)
+Theorem C02_final_qr_keeps_charge : forall (F : ofield) qr (Hs : list (osite (Cx F))) qd qWs d DsW,
+  0 < length qd -> (forall j, j <= length Hs -> 0 < length (nth j qWs [])) ->
+  0 < d -> OperationChains.ochain_ok (repeat d (length Hs)) DsW Hs -> hd 0 DsW = 1 ->
+  forall st : sw (Cx F),
+  ZQ (Cx F) Hs qd qWs st 0 -> gBL st 0 = env_one -> SweepsInv.Z (Cx F) Hs d st 0 -> SweepsInv.NN (Cx F) Hs d (s_A st) = k1 (Cx F) ->
+  1 <= length Hs ->
+  (let M := site_flat (site_tr (gA st 0)) in let q0 := Sweeps.qflat qd (Sweeps.zneg (gq st 1)) in let q1 := Sweeps.zneg (gq st 0) in
+   (bond_okP (Cx F) q0 q1 M -> qr_sp_ok (Cx F) M q0 q1 (qr (length (s_tr st)) M q0 q1)) /\ qr_ok M (qr (length (s_tr st)) M q0 q1)) ->
+  length (s_qD (dmrg_final_qr qr qd st)) = length (s_qD st) /\ gq (dmrg_final_qr qr qd st) 0 = gq st 0 /\
+  gq (dmrg_final_qr qr qd st) (length Hs) = gq st (length Hs).
+Proof. exact final_keeps_q0. Qed.
+Print Assumptions C02_final_qr_keeps_charge.
+
+(* both DMRG functions: hypotheses = those of the sparsity theorems (C02) and of the whole-run theorems of C10 (uniform
+   shapes, right-canonical after the preliminary orthonormalisation; Ritz contract / exact split / QR factorisation on the
+   calls issued); psi has a non-zero amplitude *)
+Theorem C02_total_charge_kept_dmrg : forall (F : ofield) (dqr : mx (Cx F) -> mx (Cx F) * mx (Cx F)) (H : mpo (Cx F)) (psi : mps (Cx F))
+    (w : list nat) d DsW Ds0,
+  mps_ok psi = true -> orth_pre F psi -> Forall (qr_call_ok F dqr) (mps_orth_calls dqr false psi) ->
+  length w = length (m_A psi) -> Forall (fun s => s < length (m_qd psi)) w -> amp (m_A psi) w <> k0 (Cx F) ->
+  mpo_ok H = true -> o_qd H = m_qd psi -> Forall (fun q => 0 < length q) (o_qD H) ->
+  hd [] (o_qD H) = [0%Z] -> last (o_qD H) [] = [0%Z] ->
+  mpo_shapeb d DsW (o_A H) = true -> mps_shapeb d Ds0 (m_A (fst (orth_right_model F dqr psi))) = true ->
+  Forall right_iso (m_A (fst (orth_right_model F dqr psi))) ->
+  (forall qr keig n A qD ens tr,
+     dmrg_singlesite (orth_right_model F dqr) qr keig H psi n = Some (A, qD, ens, tr) ->
+     sp_tr_ok (Cx F) qr (fun _ _ _ _ X _ => X) (fun _ _ _ C _ => C) keig (o_A H) (m_qd psi) (o_qD H) (k0 (Cx F)) (k0 (Cx F)) (rev tr) ->
+     rtr_ok qr keig (o_A H) d (rev tr) ->
+     hd [] qD = hd [] (m_qD psi) /\ last qD [] = last (m_qD psi) []) /\
+  (forall qr split keig n A qD ens tr,
+     dmrg_twosite (orth_right_model F dqr) qr split keig H psi n = Some (A, qD, ens, tr) ->
+     sp2_tr_ok (Cx F) qr split (no_kexp (Cx F)) (no_kexp0 (Cx F)) keig (o_A H) (m_qd psi) (o_qD H) (k0 (Cx F)) (k0 (Cx F)) (rev tr) ->
+     rtr2_ok qr split keig (o_A H) d (rev tr) ->
+     hd [] qD = hd [] (m_qD psi) /\ last qD [] = last (m_qD psi) []).
+Proof. exact dmrg_total_charge_kept. Qed.
+Print Assumptions C02_total_charge_kept_dmrg.
+(* NOT PROVED (full statements): C02_total_charge_kept_dmrg with a truncating split (tol_split > 0: C10's contract [split_ok]
+   used here is the exact split; needed would be "the kept part of a norm-one tensor is not zero", i.e. tol < 1, and the
+   renormalisation by the closing QR); the C10 operand conditions mps_shapeb / right_iso as consequences of C01 for
+   orth_right_model (proved in the C08/C10 link development, not restated here). *)
+
+(* ---- non-vacuity, round 3: a two-site TDVP run over Z[i] (L = 2, qd = [0;1], bond charges [0] [0;1] [1], identity operator,
+        two time steps): the model returns, emits 6 calls (KH2, SPLITL, STR per step), every recorded call meets its contract
+        [sp2_tr_ok] (the split answers are block sparse under the returned charges [1; 0]), all hypotheses of
+        C02_tdvp2_run_sparse hold, the result satisfies the invariant, is not zero, and has the boundary charges [0], [1] of the
+        input (conclusion of C02_tdvp_boundary). ---- *)
+Example C02_tdvp2_nonvacuous :
+  match tdvp_twosite ex3c_orth ex3c_split ex3c_kexp ex3c_H ex3c_psi ((0, 1)%Z : GIring) ((0, 1)%Z : GIring) 2 with
+  | Some (A, qD, nrm, tr) =>
+      length tr = 6 /\ mps_ok (mkmps (m_qd ex3c_psi) qD A) = true /\ mps_nonzero (mkmps (m_qd ex3c_psi) qD A) = true /\
+      hd [] qD = [0%Z] /\ last qD [] = [1%Z] /\
+      sp2_tr_ok GIring (no_qr GIring) ex3c_split ex3c_kexp (no_kexp0 GIring) (no_keig GIring) (o_A ex3c_H) (m_qd ex3c_psi) (o_qD ex3c_H)
+                ((0, 1)%Z : GIring) ((0, 1)%Z : GIring) (rev tr)
+  | None => False end /\
+  mpo_ok ex3c_H = true /\ o_qd ex3c_H = m_qd ex3c_psi /\ Forall (fun q => 0 < length q) (o_qD ex3c_H) /\
+  hd [] (o_qD ex3c_H) = [0%Z] /\ last (o_qD ex3c_H) [] = [0%Z] /\ mps_ok (fst (ex3c_orth ex3c_psi)) = true /\
+  mps_nonzero ex3c_psi = true.
+Proof.
+  split.
+  - vm_compute tdvp_twosite. split; [reflexivity|]. split; [vm_compute; reflexivity|]. split; [vm_compute; reflexivity|].
+    split; [reflexivity|]. split; [reflexivity|].
+    cbn [rev app sp2_tr_ok].
+    repeat match goal with
+    | |- _ /\ _ => split
+    | |- True => exact I
+    | |- sp2_call_ok _ _ _ _ _ _ _ _ _ _ _ _ _ =>
+        unfold sp2_call_ok; cbn [t_call c_kind c_site c_coef t_envs t_ten t_qs]
+    | |- sp_call_ok _ _ _ _ _ _ _ _ _ _ _ _ => unfold sp_call_ok; cbn [t_call c_kind c_site c_coef t_envs t_ten t_qs]; exact I
+    | |- forall ql qr', _ -> _ -> _ -> site_okP _ _ _ _ _ => intros ql qr' HA _ _; exact HA
+    | |- site_okP _ _ _ _ _ -> split_sp_ok _ _ _ _ _ _ => intros _; apply split_sp_okb_sound; vm_compute; reflexivity
+    end.
+  - split; [vm_compute; reflexivity|]. split; [reflexivity|]. split; [repeat constructor|]. split; [reflexivity|].
+    split; [reflexivity|]. split; vm_compute; reflexivity.
+Qed.
